@@ -171,12 +171,18 @@ def one_event(rnd, dtype, index):
     bits = BITS[dtype]
     P, klo, khi = rnd.choice(SHAPES[dtype])
     K = rnd.randrange(klo, khi + 1)
-    G = math.comb(K + P - 1, P)
     C = rnd.choice([2, 3, 3, 4])
     b = rnd.choice([0, 1, 3])
     S = b + rnd.choice([8, 8, 16])          # dyadic chain length: every threshold is decided exactly in floating point
     pool = make_pool(rnd, P, K, bits)
     tr = make_trace(rnd, pool, C, S, b)
+    return record(rnd, dtype, index, P, K, C, S, b, tr)
+
+
+def record(rnd, dtype, index, P, K, C, S, b, tr):
+    """the stored trace tr (C x S ascending genotypes) through the real classes in the given dtype"""
+    bits = BITS[dtype]
+    G = math.comb(K + P - 1, P)
     npdt = getattr(np, dtype)
     with_array = G <= MAX_ARRAY and G * P <= MAX_TLC
     if dtype == "int16":
@@ -206,6 +212,11 @@ def one_event(rnd, dtype, index):
 
 
 def run(task):
+    if task["op"] == "rerun":       # --replay: the recorded traces again
+        rnd = random.Random(0)
+        with np.errstate(all="ignore"):
+            return [record(rnd, e["dtype"], e["index"], e["p"], e["k"], e["c"], e["s"], e["burn"], e["tr"])
+                    for e in task["events"]]
     rnd = random.Random(task["seed"])
     events = []
     with np.errstate(all="ignore"):
